@@ -616,6 +616,10 @@ SnapViol(s, R) ==
       strs == {s.streams[i] : i \in DOMAIN s.streams}
       regStrs == {x \in strs : x.reg}
       specHeld == MapThenSumSet(LAMBDA x : Get(R, <<e, x.sid>>, ReasmInit).nb, regStrs)
+      \* ... and what the application can still read from stream objects an inbound reset has detached
+      \* ("user bytes it currently holds for reassembly or unread delivery ... whatever ... stream resets occurred")
+      specHeldAll == MapThenSumSet(LAMBDA x : Get(R, <<e, x.sid>>, ReasmInit).nb, {y \in strs : y.reg \/ y.known})
+      where == IF specHeldAll # specHeld THEN "detached-unread" ELSE "registered"
       loss == prev # NoSnap /\ (s.nt3 > prev.nt3)
       enterFR == prev # NoSnap /\ s.infr /\ ~prev.infr
       mtu == Cfg(e).mtu
@@ -644,9 +648,9 @@ SnapViol(s, R) ==
     \* C11: the bytes each registered stream holds are exactly what the specification's reassembly holds
     \cup {V("C11_HeldBytes", <<e, x.sid, x.rb, Get(R, <<e, x.sid>>, ReasmInit).nb>>) :
              x \in {y \in regStrs : y.rb # Get(R, <<e, y.sid>>, ReasmInit).nb}}
-    \cup (IF onlyData /\ sk # <<>> /\ sk.arwnd # MaxI(0, Cfg(e).buf - specHeld)
-          THEN {V("C11_Arwnd", <<e, sk.arwnd, Cfg(e).buf, specHeld>>)} ELSE {})
-    \cup (IF Established(s) /\ s.arwnd # MaxI(0, Cfg(e).buf - specHeld) THEN {V("C11_ArwndNow", <<e, s.arwnd, Cfg(e).buf, specHeld>>)} ELSE {})
+    \cup (IF onlyData /\ sk # <<>> /\ sk.arwnd # MaxI(0, Cfg(e).buf - specHeldAll)
+          THEN {V("C11_Arwnd", <<e, sk.arwnd, Cfg(e).buf, specHeldAll, where>>)} ELSE {})
+    \cup (IF Established(s) /\ s.arwnd # MaxI(0, Cfg(e).buf - specHeldAll) THEN {V("C11_ArwndNow", <<e, s.arwnd, Cfg(e).buf, specHeldAll, where>>)} ELSE {})
     \* C07: the receiver's next-expected cursor is where the specification says (forward-TSN skips)
     \cup {V("C07_Cursor", <<e, x.sid, IF Get(R, <<e, x.sid>>, ReasmInit).il THEN x.rmid ELSE x.rssn, Get(R, <<e, x.sid>>, ReasmInit).next>>) :
              x \in {y \in regStrs : <<e, y.sid>> \in DOMAIN R /\ (IF R[<<e, y.sid>>].il THEN y.rmid ELSE y.rssn) # R[<<e, y.sid>>].next}}
